@@ -62,6 +62,7 @@ class FakeKernel:
         self.spd = {}            # (selector key, dir) -> decoded policy
         self.requests = []       # every request: dict(idx, raw, msg|None, error, applied)
         self.fault_plan = {}     # request index -> ('errno', -N) | ('oserror', N)
+        self.fault_types = {}    # request name (NEWSA, DELSA, ...) -> the same, for EVERY request of that type (a persistent refusal)
         self.events = collections.deque()   # kernel -> daemon messages waiting on the event socket
         self.listeners = []
         self.next_index = 0x10000
@@ -79,6 +80,8 @@ class FakeKernel:
             rec['framing'] = str(ex)
             rec['error'] = -22
             msg = None
+        if not fault and msg is not None and self.fault_types:
+            fault = self.fault_types.get(msg['name'])
         if fault and fault[0] == 'oserror':
             rec['error'] = -fault[1]
             rec['fault'] = fault
